@@ -1566,7 +1566,8 @@ fn run_part(ctx: &Ctx, part: &str, tag: u8, uni: Uni, depth: Option<usize>) {
 // ------------------------------------------------------------------ gate sweep
 /// Document number `n` of the sweep. Per method id (in the order of `gids`, reversed if the last digit says so): in
 /// verificationMethod {absent, body 0, body 0 and body 1 under the one id}; in each relationship of `grels` {absent,
-/// reference, embedded body 0, embedded body 0 followed by a reference}; every subset of `sids` as services.
+/// reference, embedded body 0, embedded body 0 followed by a reference}; every subset of `sids` as services; the two
+/// entries of one id adjacent or separated by the entries of the other ids.
 fn gate_spec(mut n: u64, gids: &[u8], grels: &[u8], sids: &[u8]) -> Spec {
   let mut digit = |base: u64| {
     let d = n % base;
@@ -1579,20 +1580,28 @@ fn gate_spec(mut n: u64, gids: &[u8], grels: &[u8], sids: &[u8]) -> Spec {
   if gids.len() > 1 && digit(2) == 1 {
     per_id.reverse();
   }
-  for (id, g, es) in per_id {
-    if g >= 1 {
-      spec.general.push((id, 0));
-    }
-    if g == 2 {
-      spec.general.push((id, 1));
-    }
-    for (r, e) in grels.iter().zip(es) {
-      let l = &mut spec.rels[(*r - 1) as usize];
-      if e >= 2 {
-        l.push(SpecEnt::Embed(id, 0));
+  // entry order within a set: the entries of one id next to each other, or (last digit) the first entries of all ids
+  // followed by the second entries of all ids — two entries under one id are then NOT adjacent ([a, b, a])
+  let interleaved = gids.len() > 1 && digit(2) == 1;
+  for pass in 0..2u8 {
+    for (id, g, es) in &per_id {
+      let (id, g) = (*id, *g);
+      let here = |second: bool| if interleaved { (pass == 1) == second } else { pass == 0 };
+      if g >= 1 && here(false) {
+        spec.general.push((id, 0));
       }
-      if e == 1 || e == 3 {
-        l.push(SpecEnt::Refer(id));
+      if g == 2 && here(true) {
+        spec.general.push((id, 1));
+      }
+      for (r, e) in grels.iter().zip(es) {
+        let l = &mut spec.rels[(*r - 1) as usize];
+        // (a lone reference is a first entry)
+        if *e >= 2 && here(false) {
+          l.push(SpecEnt::Embed(id, 0));
+        }
+        if (*e == 1 && here(false)) || (*e == 3 && here(true)) {
+          l.push(SpecEnt::Refer(id));
+        }
       }
     }
   }
@@ -1600,7 +1609,7 @@ fn gate_spec(mut n: u64, gids: &[u8], grels: &[u8], sids: &[u8]) -> Spec {
   spec
 }
 fn gate_count(gids: &[u8], grels: &[u8], sids: &[u8]) -> u64 {
-  (3 * 4u64.pow(grels.len() as u32)).pow(gids.len() as u32) * 2u64.pow(sids.len() as u32) * if gids.len() > 1 { 2 } else { 1 }
+  (3 * 4u64.pow(grels.len() as u32)).pow(gids.len() as u32) * 2u64.pow(sids.len() as u32) * if gids.len() > 1 { 4 } else { 1 }
 }
 
 /// Every operation of `ops` on `st`, on every changed successor again, `depth_left` deep. A document already expanded
